@@ -128,6 +128,11 @@ class OpDef:
     def deterministic(self, args):
         return True
 
+    def smooth_at_zero(self, args):
+        """True if the operation is differentiable with a *finite* derivative where an entry of its first operand is exactly 0
+        (so a gradient that is nan / inf there can only come from the way backward computes it, e.g. 0/0)"""
+        return False
+
     def may_reject(self, args):
         """configurations the documentation allows in principle but that an implementation may be unable to honour (e.g.
         'same' padding that needs an asymmetric split): either the documented result or an exception is acceptable, a
@@ -196,6 +201,13 @@ class OpCase:
                 names[sp.label] = []
                 continue
             a = env.arr(sp.label, sp.shape, dt, **sp.dom)
+            if self.variant.get("zero_first") and i == 0 and int(np.prod(sp.shape, dtype=int)) >= 1:
+                # the first entry of the first operand is exactly 0 (a constant, not a value the solver may move)
+                if env.sym:
+                    raw = a.view(np.ndarray)
+                    raw[(0,) * raw.ndim] = sc.S(sc.const(0), np.dtype(dt))
+                else:
+                    a[(0,) * a.ndim] = 0.0
             layout = self.variant.get("layout")
             if layout and i == 0 and len(sp.shape) >= 2:
                 a = relayout(a, layout)
@@ -214,7 +226,53 @@ class OpCase:
             return getattr(self, "run_" + self.prop)(env)
 
     # ------------------------------------------------------------------ VJP (C01 / C02)
+    def run_zero(self, env):
+        """exact zeros: the point x_0 = 0 has measure zero for the solver, but real data is full of exact zeros (after relu,
+        padding, masks).  Run in the extended-real mode (0/0 = nan, c/0 = inf propagate symbolically) with a constant 0
+        entry and require finite gradients wherever the operation itself is smooth with a finite derivative there."""
+        from .symnum import xr as XRM
+        out = E.Outcome()
+        prev = (sc.CTX.xr, sc.CTX.rewrite)
+        if env.sym:
+            sc.CTX.xr = XRM.XR("float32")
+            sc.CTX.rewrite = False
+        try:
+            specs, ts, arrays, names = self._make_inputs(env, True)
+            extra = self.opdef.extra(self.args, env)
+            try:
+                o = self.opdef.forward(self.args, ts, extra)
+            except Exception as e:  # noqa: BLE001
+                if isinstance(e, sc.Unsupported):
+                    raise
+                out.rejected = "%s: %s" % (type(e).__name__, e)
+                return out
+            Tn = T()
+
+            def special(arr):
+                if env.sym:
+                    return [i for i, v in enumerate(np.asarray(arr.view(np.ndarray) if hasattr(arr, "view") else arr, dtype=object).reshape(-1))
+                            if isinstance(v, sc.S) and v.n.op in ("inf", "nan")]
+                return [i for i, v in enumerate(np.asarray(arr, dtype=np.float64).reshape(-1)) if not np.isfinite(v)]
+            outs = as_list(o)
+            if any(special(oo.data) for oo in outs):
+                raise sc.Unsupported("the forward result is not finite at the zero entry: outside this scenario")
+            for k, oo in enumerate(outs):
+                if oo.requires_grad:
+                    oo.backward(Tn(env.arr("g%d" % k, oo.shape, oo.dtype, lo=-2, hi=2)))
+            for sp, t in zip(specs, ts):
+                if not t.requires_grad:
+                    continue
+                gr = gradof(t)
+                bad = special(gr) if gr is not None else []
+                out.fact("grad(%s) is finite where an operand entry is exactly 0" % sp.label, gr is not None and not bad,
+                         "non-finite gradient entries %s" % (bad,))
+        finally:
+            sc.CTX.xr, sc.CTX.rewrite = prev
+        return out
+
     def run_vjp(self, env):
+        if self.variant.get("zero_first"):
+            return self.run_zero(env)
         out = E.Outcome()
         specs, ts, arrays, names = self._make_inputs(env, True)
         extra = self.opdef.extra(self.args, env)
